@@ -13,6 +13,7 @@ package slug
 //@   ensures C04.lexical.segment: ok && len(p.allowSymlinkTargets) == 0 ==>
 //@       segUnder(ite(isAbs(target), Clean(target), Join(Dir(ite(isAbs(path), path, Join(Abs(root), path))), target)), Abs(root))
 //@   ensures C04,C12.illegal: !ok ==> err != nil
+//@   ensures C04.physical: ok && len(p.allowSymlinkTargets) == 0 && !isAbs(target) ==> dotdotOnlyLeading(target)
 //@   guide g: isPlainAbs(root) && isPlainRel(path) && (isDotDotRel(target) || isPlainAbs(target))
 
 //@ func (*Packer).Unpack -> (err)
